@@ -9,7 +9,7 @@ from prosemirror.transform import Transform
 
 ID = "C03"
 CORR_MODULE = "Corr.C03"
-LEVEL = "exploration"
+LEVEL = "proof"
 SHARD = 120
 
 
